@@ -90,6 +90,30 @@ def check(ctx, rep):
     rep.floor('gate.stores', len(stores), 12, 'pixel stores through graph_view')
     for fn, n in stores[:40]:
         rep.ob('gate.store-through-viewport', '%s: %s' % (fn.name, short(n, 60)), True)
+    # a range store is clipped by slice arithmetic (_convert_slice clamps the start to the low bound and the stop
+    # to the high bound): a stop that lies left of / above the viewport by more than the viewport's own offset comes
+    # out negative and Python counts it from the far edge.  Corner coordinates that arrive from the statement (the
+    # parameters of the drawing primitive) are therefore cut to the screen plus one pixel before they are used.
+    n_cut = 0
+    for fn, n in stores:
+        params = set(a.arg for a in fn.args.args)
+        used = sorted(set(x.id for sl in ast.walk(n.targets[0]) if isinstance(sl, ast.Slice) for x in ast.walk(sl) if isinstance(x, ast.Name) and x.id in params))
+        for name in used:
+            n_cut += 1
+            cuts = [a for a in fn.body if isinstance(a, ast.Assign) and isinstance(a.value, ast.Call) and norm(a.value.func) == 'self.graph_view.cutoff_coord'
+                    and name in [norm(e) for e in getattr(a.targets[0], 'elts', [a.targets[0]])] and name in [norm(e) for e in a.value.args] and a.lineno < n.lineno]
+            rep.ob('clip.range-corners-cut-to-screen', '%s: `%s` is cut to the screen before %s' % (fn.name, name, short(n.targets[0], 44)), len(cuts) >= 1,
+                   'a corner far off the low side of the viewport gives a negative slice stop: the store wraps round and fills pixels outside the viewport', ctx.where(n))
+    rep.floor('clip.range-corners-cut-to-screen', n_cut, 4, 'statement coordinates used as range bounds')
+    # SCREEN with the active page left out keeps the active page: every later graphics statement draws on it
+    sc = ctx.fn(D + ':Display.screen')
+    fls = ctx.flow(sc)
+    dflt = [a for a in own_nodes(sc) if isinstance(a, ast.Assign) and norm(a.targets[0]) == 'new_apagenum']
+    rep.floor('page.omitted-active-page-stays', len(dflt), 1, 'defaults for the active page in Display.screen')
+    for a in dflt:
+        pcjr_reset = isinstance(a.value, ast.Constant) and a.value.value == 0 and any('pcjr' in f.text and f.pol for f in fls.facts(a))
+        rep.ob('page.omitted-active-page-stays', 'screen(): %s' % short(a, 50), pcjr_reset or (norm(a.value) == 'self.apagenum' and fls.knows(a, 'new_apagenum is None', True)),
+               'SCREEN with the active page omitted moves the active page: graphics statements that follow draw on a page the program did not select', ctx.where(a))
     # display.cls_ goes through the gate too
     cls_ = ctx.fn(D + ':Display.cls_')
     raws = [n for n in own_nodes(cls_) if isinstance(n, ast.Assign) and isinstance(n.targets[0], ast.Subscript) and 'pixels' in norm(n.targets[0].value)]
@@ -247,6 +271,10 @@ def variants(ctx):
         return lambda tree: f(mu.find_def(tree, f_name))
 
     return [
+        Va('filled-box-corners-not-cut', 'break', G, in_fn('Graphics._draw_box_filled', lambda fn: mu.remove_stmt(fn, mu.stmt_has('cutoff_coord(x1, y1)', ast.Assign))),
+           expect='clip.range-corners-cut-to-screen'),
+        Va('omitted-active-page-follows-visible-page', 'break', D, in_fn('Display.screen', lambda fn: mu.replace_stmt(fn, mu.text_is('new_apagenum = self.apagenum'), 'new_apagenum = self.vpagenum')),
+           expect='page.omitted-active-page-stays'),
         mu.Variant('pcopy-shares-the-pixel-matrix', 'break', 'pcbasic/basic/display/buffers.py',
                    lambda tree: mu.replace_stmt(mu.find_def(tree, 'VideoBuffer.copy_from'), mu.text_is('self._pixels[:, :] = src._pixels'), 'self._pixels = src._pixels'),
                    expect='pcopy.pages-stay-separate'),
